@@ -110,8 +110,10 @@ class Net2d(nn.Module):
             else:
                 raise ValueError(op)
         self.c_final = c
+        self.eval()       # (a BatchNorm in train mode rejects a 1x1 map with batch size 1)
         with torch.no_grad():
             probe = self._features(torch.zeros(1, prog['cin'], prog['size'], prog['size']))
+        self.train()
         h = prog.get('head', 'flatlin')
         out = prog.get('out', 3)
         self.head = nn.ModuleDict()
